@@ -138,8 +138,9 @@ def rule_R7(text, mask):
         body = mask[o + 1:c]
         if re.search(r'\bcontinue\b', body):
             raise UnitError('R7 refused: loop body contains `continue`')
-        head = '{ let mut %s: usize = %s; while %s < %s.len() /*@R7-loop*/ { let %s = &%s[%s]; ' % (i, k, i, e, v, e, i)
-        edits.append((m.start(), m.end(), head, 'R7 enumerate-loop'))
+        head = '{ let mut %s: usize = %s; while %s < %s.len() ' % (i, k, i, e)
+        edits.append((m.start(), o, head, 'R7 enumerate-loop'))
+        edits.append((o + 1, o + 1, ' let %s = &%s[%s]; ' % (v, e, i), 'R7 enumerate-loop (element binding)'))
         edits.append((c, c + 1, ' %s += 1; } }' % i, 'R7 enumerate-loop (increment)'))
     return edits
 
@@ -298,7 +299,7 @@ def process_extract(gen, sec, vu_path):
     def add_ins(off, d, prefix='', suffix=''):
         body = '\n'.join(l for _, l in d['text'])
         first = d['text'][0][0] if d['text'] else d['line']
-        edits.append((off, off, prefix + body + suffix, 'spec', (vu_path, first, d)))
+        edits.append((off, off, prefix + body + suffix, 'spec', (d.get('file_override') or vu_path, first, d)))
 
     mask = R.mask_source(text)
     open_rel = item.open - item.start
@@ -321,8 +322,16 @@ def process_extract(gen, sec, vu_path):
 
     external = 'external' in dnames
     for d in dirs:
+        if d['name'] == 'contract-from':
+            cp = os.path.join(VERIF, 'contracts', d['arg'].strip() + '.txt')
+            d['name'] = 'contract'
+            d['text'] = [(k + 1, l) for k, l in enumerate(open(cp).read().rstrip('\n').split('\n'))]
+            d['file_override'] = cp
+            d['contract_name'] = d['arg'].strip()
+    dnames = [d['name'] for d in dirs]
+    for d in dirs:
         n = d['name']
-        if n in ('serves', 'attr', 'external', 'as', 'rename', 'skip-header'):
+        if n in ('serves', 'attr', 'external', 'as', 'rename', 'skip-header', 'spec-twin'):
             continue
         if n == 'result':
             if not is_fn:
@@ -487,6 +496,18 @@ def process_extract(gen, sec, vu_path):
     em.emit_text('// ---- %s  (%s:%d-%d)' % (item_name, relfile, item.first_line, item.last_line), {'kind': 'gen'})
     if pre:
         em.emit_text(pre.rstrip('\n'), {'kind': 'gen'})
+    for d in dirs:
+        if d['name'] == 'spec-twin':
+            # R9: a loop-free body is additionally emitted as a spec fn with the same text
+            if R.loops_in(mask[body_lo:body_hi]):
+                raise UnitError('%s: @spec-twin on a function with loops' % where)
+            hdr = text[:open_rel]
+            twin_hdr = re.sub(r'\bfn\s+\w+', 'fn ' + d['arg'], hdr, count=1)
+            twin_hdr = re.sub(r'^\s*(pub(\([^)]*\))?\s+)?', '', twin_hdr)
+            tw = 'pub open spec fn ' + twin_hdr[twin_hdr.index('fn ') + 3:] + text[open_rel:]
+            gen.rules.append({'rule': 'R9 spec-twin', 'item': item_name, 'file': relfile, 'line': item.first_line, 'after': d['arg']})
+            for l in tw.split('\n'):
+                em.lines.append((l, {'kind': 'repo', 'file': 'jmespath/src/' + relfile, 'line': item.first_line, 'item': short + '(spec twin)', 'serves': serves}))
     for a in attrs:
         em.emit_text(a, {'kind': 'gen'})
     # emit segments with per-line origin
@@ -497,6 +518,7 @@ def process_extract(gen, sec, vu_path):
     gen.items.append({'item': item_name, 'short': short, 'file': 'jmespath/src/' + relfile,
                       'lines': [item.first_line, item.last_line], 'sha256_16': sha,
                       'external': external, 'has_contract': 'contract' in dnames,
+                      'contract_name': next((d.get('contract_name') for d in dirs if d.get('contract_name')), None),
                       'serves': serves})
     return short
 
@@ -575,6 +597,7 @@ def process_expand(gen, sec, vu_path):
     text = expand_simple_macro(src, name, inner)
     text, log = expand_macros_in(text, src)
     gen.rules.append({'rule': 'R3 own-macro', 'item': '%s!(%s)' % (name, R.norm_ws(inner)[:80]), 'file': relfile, 'line': line, 'nested': log})
+    tyname0 = split_top(inner)[0]
     # splice contract for `new`
     for d in sec['dirs']:
         if d['name'] == 'contract-new':
@@ -582,26 +605,67 @@ def process_expand(gen, sec, vu_path):
             mm = re.search(r'pub fn new\(\)\s*->\s*(\w+)\s*\{', text)
             if not mm:
                 raise UnitError('expand: no `pub fn new()` in expansion of %s' % name)
-            text = text[:mm.start()] + 'pub fn new() -> (r: %s)\n%s\n{' % (mm.group(1), body) + text[mm.end():]
+            hint = ''
+            for d2 in sec['dirs']:
+                if d2['name'] == 'proof-new':
+                    hint = '\n'.join(l for _, l in d2['text'])
+            o2 = mm.end() - 1
+            c2 = R.match_close(R.mask_source(text), o2)
+            inner_body = text[o2 + 1:c2]
+            if hint:
+                # R8 bind-tail on the generated constructor body
+                inner_body = ' let r__ = ' + inner_body.strip() + ';\n' + hint + '\n r__ '
+                gen.rules.append({'rule': 'R8 bind-tail', 'item': tyname0 + '::new', 'file': relfile, 'line': line})
+            text = text[:mm.start()] + 'pub fn new() -> (r: %s)\n%s\n{' % (mm.group(1), body) + inner_body + text[c2:]
     tyname = split_top(inner)[0]
+    for d in sec['dirs']:
+        if d['name'] == 'spec-accessor':
+            an, fld, fty = d['arg'].split()
+            text += '\nimpl %s { pub closed spec fn %s(&self) -> %s { self.%s } }\n' % (tyname, an, fty, fld)
     gen.em.emit_text('// ---- R3 expansion of %s!(%s ..)  (%s:%d)' % (name, tyname, relfile, line), {'kind': 'gen'})
+    cur_label, cur_props = None, None
     for l in text.split('\n'):
-        gen.em.lines.append((l, {'kind': 'repo', 'file': 'jmespath/src/' + relfile, 'line': line, 'item': tyname + '::new', 'serves': None}))
+        mm = re.match(r'\s*//#\s*([\w.-]+)\s*(?:\[([^\]]*)\])?', l)
+        if mm:
+            cur_label = mm.group(1)
+            cur_props = mm.group(2).split() if mm.group(2) else None
+            gen.labels.append({'label': cur_label, 'props': cur_props or gen.serves, 'item': tyname + '::new'})
+        gen.em.lines.append((l, {'kind': 'repo', 'file': 'jmespath/src/' + relfile, 'line': line, 'item': tyname + '::new', 'serves': None,
+                                 'label': cur_label, 'label_props': cur_props}))
     gen.items.append({'item': '%s!(%s)' % (name, tyname), 'short': tyname + '::new', 'file': 'jmespath/src/' + relfile,
                       'lines': [line, src.count('\n', 0, c) + 1], 'sha256_16': hashlib.sha256(src[m.start():c].encode()).hexdigest()[:16],
                       'external': False, 'has_contract': any(d['name'] == 'contract-new' for d in sec['dirs']), 'serves': None})
+
+
+def expand_fragments(secs, seen=()):
+    out = []
+    for sec in secs:
+        if sec['kind'] == 'fragment':
+            name = sec['arg'].strip()
+            if name in seen:
+                raise UnitError('fragment cycle: ' + name)
+            p = os.path.join(VERIF, 'units', 'fragments', name + '.vuf')
+            sub = parse_vu(p)
+            for x in sub:
+                x['vu_path'] = x.get('vu_path') or p
+            out += expand_fragments(sub, seen + (name,))
+        else:
+            out.append(sec)
+    return out
 
 
 def generate(unit, variant=None):
     """Return (Generated, file_text).  variant: dict of substitutions applied to
     `=== text` sections only (e.g. {'RCVAR': 'Arc'}) — never to repo text."""
     vu_path = os.path.join(VERIF, 'units', unit + '.vu')
-    secs = parse_vu(vu_path)
+    secs = expand_fragments(parse_vu(vu_path))
     gen = Generated(unit)
+    unit_vu_path = vu_path
     em = gen.em
     uses = []
     for sec in secs:
         k = sec['kind']
+        vu_path = sec.get('vu_path') or unit_vu_path
         if k == 'meta':
             for _, l in sec['body']:
                 if l.startswith('serves:'):
